@@ -137,3 +137,21 @@ Qed.
 
 Lemma swap_involutive p : pm_swap (pm_swap p) = p.
 Proof. destruct p; reflexivity. Qed.
+
+(* ---- the role exchange itself: which old field of SPDC each field of with_swapped_signal_idler() is built from (translated from
+   the struct literal in spdc_obj.rs), and the arms of PMType::inverse.  [pm_swap] (Model/PMParams.v) models exactly this
+   permutation; if the source's permutation changes, this lemma — hence the property theorems' premise — no longer checks. *)
+From Coq Require Import String List.
+Import ListNotations.
+Local Open Scope string_scope.
+
+Lemma swap_field_source_pinned :
+  swap_field_source =
+  [("crystal_setup", "crystal_setup"); ("deff", "deff"); ("idler", "signal"); ("idler_waist_position", "signal_waist_position");
+   ("pp", "pp"); ("pump", "pump"); ("pump_average_power", "pump_average_power"); ("pump_bandwidth", "pump_bandwidth");
+   ("pump_spectrum_threshold", "pump_spectrum_threshold"); ("signal", "idler"); ("signal_waist_position", "idler_waist_position")].
+Proof. reflexivity. Qed.
+
+Lemma pm_type_inverse_pinned :
+  pm_type_inverse_arms = [("Type2_e_eo", "Type2_e_oe"); ("Type2_e_oe", "Type2_e_eo"); ("_", "_")].
+Proof. reflexivity. Qed.
